@@ -7,7 +7,7 @@ ID = "C41"
 LEVEL = "model_checking"
 RULE = (
     "X1: a run that monitors a signal (monitor_during_wrapper / explicit monitor+unmonitor with in-line updates between messages); "
-    "an external update sig.put(v) with a value of its own at every loop position, combined (bound 2; thorough 3) with pause / "
+    "an external update sig.put(v) with a value of its own at every loop position, updates written by a document consumer while a start/descriptor/event/stop document is being dispatched (run closed by the plan with the monitor still installed or after unmonitor), combined (bound 2; thorough 3) with pause / "
     "suspension at every position and every post-pause decision. Oracle per update occurrence, by the engine condition when it "
     "arrives: run open, monitor installed, engine running and no suspension in effect => exactly one event carrying that value in "
     "the monitor's stream; engine paused (between state 'paused' and the caller's next call) or suspended (between the suspension "
@@ -20,8 +20,11 @@ ASSUMPTIONS = _x1.X1_ASSUMPTIONS + ["an update's callbacks run atomically at a l
 PUT = [("put", "sig", 7), ("@once", "put", "pause", "suspend")]  # each kind at most once per schedule
 INT = [("pause",), ("suspend", "none")]
 SPECS = {
-    "quick": [spec("monitor2", INT, bound=1), spec("monitor1", PUT, bound=1), spec("monitor1short", PUT + INT, bound=2), spec("monitorpp", [("put", "sig", 7), ("suspend", "none")], bound=1)],
-    "thorough": [spec("monitor2", INT, bound=2), spec("monitor2", INT, bound=1, a=1), spec("monitor1", PUT + INT, bound=2), spec("monitor1short", PUT + INT, bound=3), spec("monitor1short", PUT + INT, bound=2, a=1)],
+    "quick": [spec("monitor2", INT, bound=1), spec("monitor1", PUT, bound=1), spec("monitor1short", PUT + INT, bound=2), spec("monitorpp", [("put", "sig", 7), ("suspend", "none")], bound=1)]
+    # updates written by a document consumer WHILE a start / descriptor / event / stop document is being dispatched
+    + [spec("monitordoc", INT, bound=1, on=on, um=um) for on in ("start", "descriptor", "event", "stop") for um in (0, 1)],
+    "thorough": [spec("monitor2", INT, bound=2), spec("monitor2", INT, bound=1, a=1), spec("monitor1", PUT + INT, bound=2), spec("monitor1short", PUT + INT, bound=3), spec("monitor1short", PUT + INT, bound=2, a=1)]
+    + [spec("monitordoc", INT + [("abort",), ("stop",)], bound=2, on=on, um=um, a=a) for on in ("start", "descriptor", "event", "stop") for um in (0, 1) for a in (0, 1)],
 }
 
 
@@ -121,7 +124,7 @@ def oracle(scn, obs, ref, schedule):
         vals = []
         j = i + 1
         while j < len(tl) and tl[j][0] in ("doc", "dev"):
-            if tl[j][0] == "doc" and tl[j][2] == "event":
+            if tl[j][0] == "doc" and tl[j][2] == "event" and "sig" in obs.docs[tl[j][1]][1]["data"]:  # the monitor's stream only
                 n += 1
                 vals.append(list(obs.docs[tl[j][1]][1]["data"].values()))
             j += 1
